@@ -11,12 +11,16 @@
 //   7 layout_stride::mapping(StridedLayoutMapping const&)   (from layout_left / layout_right mappings)
 //   8 layout_left / layout_right ::mapping(layout_stride::mapping const&)
 //   9 submdspan_extents(extents, full_extent / index ...) - order and values of the kept extents
+//  10 submdspan_extents with run-time index-pair slices  [first,last)
+//  11 submdspan_extents with index-pair slices of integral constants (static result extent)
 #include "vf.hpp"
 #include "vf_contract.hpp"
 
 #include "vf_c19.hpp"
 
 #include <etl/mdarray.hpp>
+#include <etl/type_traits.hpp>
+#include <etl/utility.hpp>
 
 #include <algorithm>
 
@@ -404,6 +408,80 @@ void probe(Ctx& c, std::size_t k)
     expect_ext(c, "(full,full,full):static-first", etl::submdspan_extents(e2, etl::full_extent, etl::full_extent, etl::full_extent), {2, a, b}, {2, dyn, dyn});
     crumb(c, s, "(full,index,full):static-first");
     if (a > 0) { expect_ext(c, "(full,index,full):static-first", etl::submdspan_extents(e2, etl::full_extent, 0, etl::full_extent), {2, b}, {2, dyn}); }
+}
+#elif VF_PROBE == 10 || VF_PROBE == 11
+    #if VF_PROBE == 10
+constexpr char const* PNAME = "subext_pair";
+    #else
+constexpr char const* PNAME = "subext_cpair";
+    #endif
+constexpr std::uint64_t NCASE = 25;
+template <typename X>
+void expect_ext(Ctx const& c, char const* op, X const& x, std::initializer_list<LL> exp, std::initializer_list<std::size_t> exp_static, std::uint64_t salt)
+{
+    vf::cover(op, vf::mix(c.h, salt), true);
+    vf::eq_int("rank", (LL)X::rank(), (LL)exp.size());
+    std::size_t r = 0;
+    auto st       = exp_static.begin();
+    for (LL v : exp) {
+        if (r < X::rank()) {
+            vf::eq_int(r == 0 ? "extent(0)" : (r == 1 ? "extent(1)" : "extent(2)"), (LL)x.extent(r), v);
+            vf::eq_bool("static_extent(r)", X::static_extent(r) == *st, true);
+        }
+        ++r;
+        ++st;
+    }
+}
+void probe(Ctx& c, std::size_t k)
+{
+    using E = etl::extents<Idx, dyn, 3, dyn>;
+    c.p     = pinfo<E>();
+    c.shape = shape_of(c.p, k);
+    c.sit   = situation(c.p, c.shape);
+    c.desc  = show(c.shape, 3);
+    c.h     = hash_arr(c.shape, 3, 901);
+    LL const a = c.shape[0], b = c.shape[2];
+    E const e  = make_extents<E>(c.shape);
+    char const* s = "submdspan_extents";
+    #if VF_PROBE == 10
+    using P = etl::pair<Idx, Idx>;
+    for (LL f = 0; f <= a; ++f) {
+        for (LL l = f; l <= a; ++l) {
+            std::string const ar = "pair=[" + std::to_string(f) + "," + std::to_string(l) + ")";
+            crumb(c, s, "(pair,full,full)", ar);
+            expect_ext(c, "(pair,full,full)", etl::submdspan_extents(e, P{(Idx)f, (Idx)l}, etl::full_extent, etl::full_extent), {l - f, 3, b}, {dyn, 3, dyn}, (std::uint64_t)(f * 8 + l));
+            if (b > 0) {
+                crumb(c, s, "(pair,full,index)", ar);
+                expect_ext(c, "(pair,full,index)", etl::submdspan_extents(e, P{(Idx)f, (Idx)l}, etl::full_extent, 0), {l - f, 3}, {dyn, 3}, (std::uint64_t)(f * 8 + l));
+            }
+        }
+    }
+    for (LL f = 0; f <= 3; ++f) {
+        for (LL l = f; l <= 3; ++l) {
+            std::string const ar = "pair=[" + std::to_string(f) + "," + std::to_string(l) + ")";
+            crumb(c, s, "(full,pair,full)", ar);
+            expect_ext(c, "(full,pair,full)", etl::submdspan_extents(e, etl::full_extent, P{(Idx)f, (Idx)l}, etl::full_extent), {a, l - f, b}, {dyn, dyn, dyn}, (std::uint64_t)(f * 8 + l));
+            for (LL f2 = 0; f2 <= b; ++f2) {
+                crumb(c, s, "(full,pair,pair)", ar);
+                expect_ext(c, "(full,pair,pair)", etl::submdspan_extents(e, etl::full_extent, P{(Idx)f, (Idx)l}, P{(Idx)f2, (Idx)b}), {a, l - f, b - f2}, {dyn, dyn, dyn}, (std::uint64_t)(f * 64 + l * 8 + f2));
+            }
+        }
+    }
+    #else
+    using P13 = etl::pair<etl::integral_constant<Idx, 1>, etl::integral_constant<Idx, 3>>;
+    using P02 = etl::pair<etl::integral_constant<Idx, 0>, etl::integral_constant<Idx, 2>>;
+    using P22 = etl::pair<etl::integral_constant<Idx, 2>, etl::integral_constant<Idx, 2>>;
+    crumb(c, s, "(full,pair<ic,ic>,full)", "[1,3)");
+    expect_ext(c, "(full,pair<ic,ic>,full)", etl::submdspan_extents(e, etl::full_extent, P13{}, etl::full_extent), {a, 2, b}, {dyn, 2, dyn}, 1);
+    crumb(c, s, "(full,pair<ic,ic>,full)", "[0,2)");
+    expect_ext(c, "(full,pair<ic,ic>,full)", etl::submdspan_extents(e, etl::full_extent, P02{}, etl::full_extent), {a, 2, b}, {dyn, 2, dyn}, 2);
+    crumb(c, s, "(full,pair<ic,ic>,full)", "[2,2)");
+    expect_ext(c, "(full,pair<ic,ic>,full)", etl::submdspan_extents(e, etl::full_extent, P22{}, etl::full_extent), {a, 0, b}, {dyn, 0, dyn}, 3);
+    if (a > 0) {
+        crumb(c, s, "(index,pair<ic,ic>,full)", "[1,3)");
+        expect_ext(c, "(index,pair<ic,ic>,full)", etl::submdspan_extents(e, 0, P13{}, etl::full_extent), {2, b}, {2, dyn}, 4);
+    }
+    #endif
 }
 #else
     #error "unknown VF_PROBE"
